@@ -169,6 +169,30 @@ P("cfg_sector", CFG_SECTOR); P("cfg_state_off", STATE_SECTOR_OFFSET);
                    r"content_len = update->expected_file_size - update->downloaded_data_size;", un)
     if len(ma) != 2 or len(ml) != 2 or not (mf and mk and mb):
         raise ExtractError("supla_update.c: slot/limit/footer literals not recognised")
+    # the response head: the three strstr literals, the offset behind "Content-Length: ", the head buffer size and the
+    # shape of the digit loop (digits accumulate with <<3 + <<1, the size gate sits at the line end, the loop ends there)
+    lit = r'"((?:[^"\\]|\\.)*)"'
+    mh = re.search(r"if \( NULL != strstr\(update->http_header_data, " + lit + r"\) && NULL != strstr\(update->http_header_data, "
+                   + lit + r"\) && NULL != \(str = strstr\(update->http_header_data, " + lit + r"\)\) \) \{ "
+                   r"int pos = \(int\)str - \(int\)update->http_header_data; pos\+=(\d+);", un)
+    mmax = re.search(r"#define MAX_HTTP_HEADER_SIZE (\d+)", up)
+    if not mh or not mmax:
+        raise ExtractError("supla_update.c: response head literals not recognised")
+    hl = [c_literal_bytes(['"%s"' % mh.group(i)]) for i in (1, 2, 3)]
+    if int(mh.group(4)) != len(hl[2]):
+        raise ExtractError("supla_update.c: pos+=%s is not the length of %r" % (mh.group(4), hl[2]))
+    shape = [
+        "for(a=pos;a<update->http_header_data_len;a++) { if ( update->http_header_data[a] != '\\r' && update->http_header_data[a] != '\\n' ) { "
+        "if ( update->http_header_data[a] < '0' || update->http_header_data[a] > '9' ) break; "
+        "update->expected_file_size = (update->expected_file_size<<3) +(update->expected_file_size<<1)+update->http_header_data[a] -'0'; } "
+        "if ( update->http_header_data[a] == '\\r' || update->http_header_data[a] == '\\n' ) { if ( update->expected_file_size > 0 ) { "
+        "update->downloaded_data_size = 0; switch(system_get_flash_size_map()) {",
+        "default: break; } } break; } } } break; } }",
+        "if ( update->http_header_data_len >= MAX_HTTP_HEADER_SIZE-1 ) { update->http_header_matched = -1; break; }",
+    ]
+    for sh in shape:
+        if sh not in un:
+            raise ExtractError("supla_update.c: response head scanner shape not recognised near: " + sh[:70])
     u = run_probe("p_upd", """
 P("upd_sec", SPI_FLASH_SEC_SIZE); P("upd_rsa", RSA_NUM_BYTES); P("upd_bin1", UPGRADE_FW_BIN1);
 P("upd_m2", FLASH_SIZE_8M_MAP_512_512); P("upd_m3", FLASH_SIZE_16M_MAP_512_512); P("upd_m4", FLASH_SIZE_32M_MAP_512_512);
@@ -180,7 +204,9 @@ P("upd_attempts", 5);
               "upd_l512": str(int(ml[0][0]) * int(ml[0][1])), "upd_l1024": str(int(ml[1][0]) * int(ml[1][1])),
               "upd_footer": "[%s]" % ", ".join(str(int(x, 16)) for x in mf.groups()[:4]) ,
               "upd_f45": "(%s, %s)" % (mf.group(5), mf.group(6)),
-              "upd_clamp": "true" if mc else "false"})
+              "upd_clamp": "true" if mc else "false",
+              "upd_hdr": "{ ok200 := %s, ctype := %s, clen := %s, maxHdr := %s }" % (
+                  list(hl[0]), list(hl[1]), list(hl[2]), mmax.group(1))})
     # supla_esp_devconn_connect_cb: the registration state is reset together with the protocol instance
     mconn = re.search(r"supla_esp_devconn_connect_cb\(void \*arg\) \{([^}]*)\}", re.sub(r"\s+", " ", dv))
     if not mconn or "supla_esp_srpc_init();" not in mconn.group(1):
@@ -221,6 +247,7 @@ def emit_consts():
         "import SuplaVerif.Model.Countdown",
         "import SuplaVerif.Model.CfgStore",
         "import SuplaVerif.Model.Update",
+        "import SuplaVerif.Model.UpdHdr",
         "namespace SuplaVerif.Gen",
         "",
         "def protoParams : ProtoParams :=",
@@ -296,6 +323,7 @@ def emit_consts():
             k["upd_a1024_hi"], k["upd_a1024_lo"]),
         "    maps512 := [%s, %s, %s], maps1024 := [%s, %s], bin1 := %s, clamp := %s }" % (
             k["upd_m2"], k["upd_m3"], k["upd_m4"], k["upd_m5"], k["upd_m6"], k["upd_bin1"], k["upd_clamp"]),
+        "def hdrParams : HdrParams := %s" % k["upd_hdr"],
         "theorem upd_footer_ok : ((%s : List Nat), %s) = ([186, 190, 43, 237], (0, 1)) := by decide" % (k["upd_footer"], k["upd_f45"]),
         "def dnsTimeoutMs : Nat := %s" % k["dns_timeout"],
         "def dnsRetryMs : Nat := %s" % k["dns_retry"],
